@@ -28,6 +28,11 @@ for f, (c8, ctag, bounded, ctx, crx, tier) in FLAV.items():
   emit(f"c02_{t}_{f}_singles", 2, "u8", new8, cap, "false", k, 0, 2, "G_SEND | G_RECV", unw, drain, [("m.next > 2", "more values than capacity were created")])
   emit(f"c02_{t}_{f}_batches", 2, "u8", new8, cap, "false", k, 0, 2, "O_TRY_SEND_BATCH | O_TRY_RECV_BATCH", unw, drain, [("m.n_batch2 > 0", "a batch receive returned two values")])
   emit(f"c02_t_{f}_blocking_batches", 2, "u8", new8, cap, "false", 1, 0, 2, "O_SEND_BATCH | O_RECV_BATCH", unw, drain, [("m.recvd != 0", "a value was received")])
+  if bounded:
+    new1_ = c8.format(c=1); new3_ = c8.format(c=3)
+    emit(f"c02_{t}_{f}_cap1_mixed", 2, "u8", new1_, "Some(1)", "false", 2, 0, 2, "O_TRY_SEND | O_TRY_RECV | O_TRY_SEND_BATCH | O_TRY_RECV_BATCH", unw, 2, [("m.next > 2", "the one-slot ring wrapped"), ("m.recvd != 0", "a value was received")])
+    emit(f"c02_{t}_{f}_cap3_recv_batch", 2, "u8", new3_, "Some(3)", "false", 3, 0, 1, "O_TRY_RECV_BATCH", 6, 4, [("m.n_batch2 > 0", "a batch receive returned two values"), ("m.next > 3", "the ring wrapped")])
+    emit(f"c02_{t}_{f}_cap3_send_batch", 2, "u8", new3_, "Some(3)", "false", 3, 0, 1, "O_TRY_SEND_BATCH", 6, 4, [("m.next > 4", "the ring wrapped")])
   # C03 (bounded only)
   if bounded:
     emit(f"c03_{t}_{f}_send", 3, "u8", new8, cap, "false", 3, 0, 2, "G_SEND | O_TRY_RECV", unw, 0, [("m.n_full > 0", "a send reported Full"), ("m.q.len == 2", "channel full at the end")])
